@@ -143,7 +143,7 @@ CLAIMS = {
         technique="TLC model checking of Queue.tla (producers / consumer with atomic append) + trace validation of recorded multi-producer runs (TraceC13.tla)",
         text="Queue.tla (N producers appending atomically, one consumer completing each macrostep before the next dequeue) is "
              "model-checked exhaustively for 3 producers x 2 events: PerSenderOrder, NoLossNoDup, NoOverlap and the liveness "
-             "property AllConsumed. Real runs with 2-16 host producer threads (with jitter; through the channel handle and through FsmExecutor::send_to_session), a timer producer (delayed sends) and "
+             "property AllConsumed. Real runs with 2-16 host producer threads (with jitter; through the channel handle and through FsmExecutor::send_to_session), a timer producer (delayed sends), an invoked child whose invoking state is left and re-entered (same invoke id) and "
              "a second session sending by session id are recorded: every producer logs its own send order, the session marks the "
              "first and the last content of each macrostep; TraceC13.tla accepts a run only if the consumed sequence is a merge "
              "of the producers' sequences (each event exactly once, per-sender order) and has the shape (dequeue, begin, end)*.",
@@ -180,7 +180,8 @@ CLAIMS = {
              "late but never early timers) is model-checked for NoEarly, AtMostOnce, ValueAtExec, DueOrder, CancelPrevents, "
              "TerminationDiscards, CancelIsolated and the liveness property ExactlyOnce. Behaviours simulated by TLC from the "
              "same spec and directed scenarios are replayed against two real sessions (commands at 40 ms ticks, delays in "
-             "between, every delay written in a randomly chosen spelling: ms / s / m, fractions, delayexpr literal and variable); "
+             "between, every delay written in a randomly chosen spelling: ms / s / m, fractions, delayexpr literal and variable; ids given, "
+             "absent or generated through idlocation and cancelled through the location; back-to-back pairs with fractional-millisecond delays); "
              "marks before and after each <send>/<cancel> and at reception give time intervals, and TraceC16.tla (which also "
              "computes the expected milliseconds from the spelling) rejects early, duplicate, lost, wrongly valued, "
              "delivered-after-cancel, delivered-after-termination and out-of-due-order deliveries whenever the intervals make the case certain.",
@@ -214,7 +215,8 @@ CLAIMS = {
         text="One probe document per event-descriptor list (1-2 tokens, spellings d / d. / d.*, '*', lists) over a token "
              "alphabet with ASCII, accented, CJK, decomposed and astral tokens; every name (1-3 tokens, incl. empty "
              "tokens) is sent as external event and a subset raised internally; TLC checks for every received event that "
-             "the transition the interpreter selected is the one Sem.NameMatch prescribes. Bounded-exhaustive over the alphabet.",
+             "the transition the interpreter selected is the one Sem.NameMatch prescribes (descriptor spellings incl. repeated '.', '.*' suffixes "
+             "and '*' among other descriptors). Bounded-exhaustive over the alphabet.",
         note=CORE_NOTE + " The reader's descriptor normalisation is part of what is checked."),
     "C20": dict(
         category="model_checking", design_ref="4/C20",
